@@ -73,6 +73,17 @@ def files_for(seed, tier):
         p = r.choice(corpus)
         return os.path.basename(p), open(p, "rb").read(), {"kind": "corpus", "name": os.path.basename(p)}
     from gen import dexasm, models
+    if r.random() < 0.2:
+        # tiny files: header + map list only, or a single string / a single empty class (map list right behind the header)
+        t = r.choice(["empty", "string", "class"])
+        model = {"classes": [], "strings_extra": []}
+        if t == "string":
+            model["strings_extra"] = [r.choice(["a", "hello", ""])]
+        elif t == "class":
+            model["classes"] = [{"desc": "La;", "access": 1, "super": None, "interfaces": [], "source": None,
+                                 "sfields": [], "ifields": [], "dmethods": [], "vmethods": []}]
+        raw, _ = dexasm.assemble(model)
+        return "generated", raw, {"kind": "gen", "model": model}
     model = r.choice([models.share_model, models.xref_model])(r) if r.random() < 0.8 else models.structured_model(r, 1, 2)
     if len(model["classes"]) > 3:
         model["classes"] = model["classes"][:3]
@@ -243,6 +254,10 @@ def _apply(raw, fault):
 
 
 def _sig(raw, fault):
+    # the same history as in the worker: the pristine file is parsed first (and must be accepted), then the faulted copy
+    v0, d0 = check_one(raw)
+    if v0 != "accepted":
+        raise HarnessError(f"pristine file is not accepted by DEX(): {v0} {d0}")
     verdict, detail = check_one(_apply(raw, fault))
     if verdict == "rejected":
         return None, detail
@@ -262,7 +277,7 @@ def write_replay(case, sig, msg, info):
     iosim.install()
     _wrap_cm()
     raw = _src_bytes(case["src"])
-    got, detail = _sig(raw, case["fault"])
+    got, detail = core.isolated(_sig, raw, case["fault"])
     if got != sig:
         return None
     payload = {"property": PROP, "engine": "iosim", "seed": case["seed"], "config": {}, "source": case["src"],
